@@ -96,6 +96,7 @@ Definition process_result (r : rstate) (k : name) : rstate :=
   | OError => handle_error r k kind_error
   | OSaveErr => handle_error_gen SFailureV r k kind_dep
   | OInterrupt => r     (* not reached: the exception escapes before *)
+  | OFailV => handle_error_gen SFailureV r k kind_failed
   end.
 
 Definition is_interrupt (k : name) : bool :=
